@@ -2,7 +2,8 @@
 #   returns normally  iff the target reported GOOD;
 #   raises CheckConditionError(sense) iff it reported CHECK CONDITION (sense = the sense bytes it sent);
 #   raises some other exception (here: OSError) for every other status or transport failure;
-#   may overwrite the contents of datain in place; touches nothing else.
+#   may overwrite the contents of datain in place; touches nothing else;
+#   takes the descriptor with file.fileno(): a closed file is refused with ValueError and nothing is sent.
 WORLD = None
 
 
